@@ -194,11 +194,13 @@ def splitColonAux : List Char → List Char → List (List Char)
 
 def splitColon (s : List Char) : List (List Char) := splitColonAux [] s
 
-/-- `rangeRefToCoordinates`: on an error in the first cell Go returns early,
+/-- `rangeRefToCoordinates`: the reference is split at `:` and must have exactly
+two parts, each decoded by `CellNameToCoordinates` as it is (absolute markers are
+validated there, not stripped). On an error in the first cell Go returns early,
 on an error in the second it returns the error as well. -/
 def rangeRefToCoordinates (ref : List Char) : Except Err (Int × Int × Int × Int) :=
-  match splitColon (ref.filter (fun c => !isDollar c)) with
-  | a :: b :: _ =>
+  match splitColon ref with
+  | [a, b] =>
     match cellNameToCoordinates a with
     | .error e => .error e
     | .ok (c1, r1) =>
